@@ -24,7 +24,8 @@ RULE = ("random fonts whose advance sequences are drawn from {all equal, equal t
         "random}, with empty glyphs first/last, component-only glyphs, vertical metrics on/off (explicit public.verticalOrigin on some "
         "glyphs, ties between origins), post format 2/3, TTF and OTF; "
         "thorough adds every advance sequence of length <= 6 over 3 values. Non-trivial = the long-metric count is strictly "
-        "between 1 and the glyph count, or a glyph is empty.")
+        "between 1 and the glyph count, or a glyph is empty."
+        " Boundary code points (U+0000, U+FFFF, supplementary only) with OS/2 first/last read from the returned object; OTF with roundTolerance < 1/2 and fractional extrema.")
 ASSUMPTIONS = ["fontTools (de)serialisation is deterministic"]
 
 FN_VORG = ("fun c : ((Z * list (str * (option Z * (option Z * Z)))) * (list (str * Z) * Z)) => "
